@@ -19,10 +19,21 @@ def job_backtracking_loop(n, mode, seed=0, timeout_s=10.0):
     return verify(C.optimize_contract(n, mode, True, True, prop="C10"), f"C10/backtracking-loop[n={n},{mode}]", timeout_s=timeout_s, seed=seed)
 
 
+def job_projected_iterates(algo, n, mode, seed=0, timeout_s=30.0):
+    """momentum / PFISTA loops: every iterate is a projection output"""
+    from qverif.pyvc.verify import verify
+    from . import C11_e1 as C
+    return verify(C.projected_iterates_contract(algo, n, mode, prop="C10"), f"C10/{algo}-loop[n={n},{mode}]", timeout_s=timeout_s, seed=seed)
+
+
 def jobs(tier, seed):
     from qverif.core.runner import Job
     from . import C11_e1 as C
     js = e2_jobs("C10", CLASSES, tier, seed)
+    for algo in ("momentum", "fista"):
+        for mode in C.MODES:
+            js.append(Job(f"C10/{algo}-loop/{mode}", "contracts.C10:job_projected_iterates",
+                          dict(algo=algo, n=2, mode=mode, seed=seed, timeout_s=30.0 if tier == "quick" else 90.0), timeout_s=600.0))
     for mode in C.MODES:
         js.append(Job(f"C10/backtracking-loop/{mode}", "contracts.C10:job_backtracking_loop",
                       dict(n=2, mode=mode, seed=seed, timeout_s=30.0 if tier == "quick" else 90.0), timeout_s=600.0))
